@@ -2031,7 +2031,7 @@ fn run(ctx: &mut Ctx) {
     }
 
     // ---- big datasets -------------------------------------------------------------------
-    ctx.phase("big", ctx.by_tier(16, 160));
+    ctx.phase("big", ctx.by_tier(64, 640));
     while let Some(k) = ctx.next_case() {
         let mut r = ctx.rng(k);
         let n = [1001, 1200, 1999, 2000, 2001, 2600][r.below(6)];
@@ -2055,7 +2055,7 @@ fn run(ctx: &mut Ctx) {
     // ---- pairs --------------------------------------------------------------------------
     let all_pairs = nt * nt * 3;
     let thorough = ctx.thorough();
-    ctx.phase("pairs", if thorough { all_pairs } else { 10_000 });
+    ctx.phase("pairs", if thorough { all_pairs } else { 20_000 });
     while let Some(k) = ctx.next_case() {
         let (f, i, j) = if thorough {
             (FORMATS[(k % 3) as usize], ((k / 3) % nt) as usize, (k / 3 / nt) as usize)
@@ -2080,7 +2080,7 @@ fn run(ctx: &mut Ctx) {
     }
 
     // ---- random datasets ----------------------------------------------------------------
-    for (phase, total, with_prefixes) in [("prefixes", ctx.by_tier(1_800u64, 30_000), true), ("random", ctx.by_tier(7_000u64, 200_000), false)] {
+    for (phase, total, with_prefixes) in [("prefixes", ctx.by_tier(20_000u64, 300_000), true), ("random", ctx.by_tier(150_000u64, 2_000_000), false)] {
         ctx.phase(phase, total);
         while let Some(k) = ctx.next_case() {
             if with_prefixes && !ctx.within(0.4) {
